@@ -486,7 +486,7 @@ func c12(c *Ctx) {
 		}
 	}
 	// ---- 4. random histories
-	N := 1500
+	N := 4000
 	if c.Thorough {
 		N = 60000
 	}
@@ -572,7 +572,7 @@ func c12(c *Ctx) {
 		c12emit(c, size, ops, outs, mode, fmt.Sprintf("rand%d", style))
 	}
 	// ---- 5. concurrent liveness runs: writers, syncers, ticks and stoppers; must finish, must not leak
-	runs := 150
+	runs := 300
 	if c.Thorough {
 		runs = 3000
 	}
